@@ -64,6 +64,10 @@ class PropertiesMetadata(dict, Metadata):  # type: ignore
             pattern = re.compile(pattern)
         return MetadataImplem({PROPERTIES_METADATA: pattern})
 
+    def __hash__(self):
+        # hashable like the other metadata, to be used in Annotated
+        return hash(id(self))
+
 
 properties = PropertiesMetadata()
 
